@@ -29,6 +29,12 @@ type Case struct {
 	Query string `json:"query,omitempty"`
 	// Clash: let different fields share an alias (what detectConflicts misses below the top level)
 	Clash bool `json:"clash,omitempty"`
+	// QSeed, when set, seeds the queries independently of the schema (failing-input search: other queries
+	// against the schema of a disagreeing case); IllPct overrides the share of queries with an ill-formed spot.
+	QSeed  uint64 `json:"qseed,omitempty"`
+	IllPct int    `json:"ill_pct,omitempty"`
+	// Edited: the pinned query is a textual edit of another one and need not be syntactically valid
+	Edited bool `json:"edited,omitempty"`
 }
 
 // aliasClash reports whether some alias names two different fields anywhere in the document.
@@ -90,6 +96,29 @@ func firstLine(s string) string {
 	return s
 }
 
+// editQuery makes one small textual edit of a pinned query: drop or duplicate a token, put a sub-selection
+// on something, remove one, rename a field.
+func editQuery(r *vh.Rng, q string) string {
+	toks := strings.Fields(q)
+	if len(toks) == 0 {
+		return q
+	}
+	i := r.Intn(len(toks))
+	switch r.Intn(5) {
+	case 0:
+		toks = append(toks[:i], toks[i+1:]...)
+	case 1:
+		toks = append(toks[:i], append([]string{toks[i]}, toks[i:]...)...)
+	case 2:
+		toks[i] = toks[i] + " { x }"
+	case 3:
+		toks[i] = "nope"
+	default:
+		toks[i] = "__typename"
+	}
+	return strings.Join(toks, " ")
+}
+
 func runCase(c *Case) ([]F, map[string]interface{}) {
 	var fs []F
 	obs := map[string]interface{}{}
@@ -120,6 +149,13 @@ func runCase(c *Case) ([]F, map[string]interface{}) {
 	obs["isch"] = isch.Coq()
 	obs["types"] = len(desc.Defs)
 
+	if c.QSeed != 0 {
+		r = vh.NewRng(c.QSeed)
+	}
+	illPct := 35
+	if c.IllPct > 0 {
+		illPct = c.IllPct
+	}
 	exec := graphql.NewExecutor(graphql.NewImmediateGoroutineScheduler())
 	var qterms []string
 	var samples []string
@@ -130,7 +166,7 @@ func runCase(c *Case) ([]F, map[string]interface{}) {
 	for k := 0; k < nq; k++ {
 		qr := r.Fork()
 		gen := &gqlty.QGen{R: qr, D: desc, ArgSamples: g.ArgSamples, PAlias: 12, ClashAliases: c.Clash, AliasPool: []string{"al1", "al2"}, PFrag: 15, PInline: 12, PTypename: 10}
-		if qr.Chance(35) {
+		if qr.Chance(illPct) {
 			gen.WantIll = qr.Pick(gqlty.IllKinds)
 		}
 		text := c.Query
@@ -141,6 +177,9 @@ func runCase(c *Case) ([]F, map[string]interface{}) {
 			samples = append(samples, text)
 		}
 		doc, gerr := parser.Parse(parser.ParseParams{Source: text})
+		if gerr != nil && c.Edited {
+			continue
+		}
 		if gerr != nil {
 			fs = append(fs, F{"harness-query-does-not-parse", firstLine(gerr.Error()) + " :: " + text})
 			continue
@@ -248,7 +287,35 @@ func runCase(c *Case) ([]F, map[string]interface{}) {
 func main() {
 	o := vh.ParseFlags()
 	var cases []Case
-	if o.Replay != "" {
+	if o.Search != "" {
+		// failing-input search (FRAMEWORK.md): other queries, more of them ill-formed, against the schemas of the
+		// disagreeing cases, and textual edits of pinned queries; fresh schemas when the file is empty.  Oracle only.
+		var seeds []Case
+		if b, err := ioutil.ReadFile(o.Search); err == nil {
+			for _, line := range strings.Split(string(b), "\n") {
+				var w struct {
+					Case Case `json:"case"`
+				}
+				if strings.TrimSpace(line) != "" && json.Unmarshal([]byte(line), &w) == nil && w.Case.Seed != 0 {
+					seeds = append(seeds, w.Case)
+				}
+			}
+		}
+		r := vh.NewRng(o.Seed)
+		for i := 0; i < o.N; i++ {
+			cr := r.Fork()
+			if len(seeds) == 0 {
+				cases = append(cases, Case{Seed: cr.U64() >> 1, NQueries: 6, IllPct: 50, Origin: "search-fresh"})
+				continue
+			}
+			sd := seeds[cr.Intn(len(seeds))]
+			c := Case{Seed: sd.Seed, NQueries: 8, QSeed: cr.U64()>>1 | 1, IllPct: 30 + cr.Intn(50), Clash: sd.Clash, Origin: "search"}
+			if sd.Query != "" && cr.Chance(50) {
+				c.Query, c.NQueries, c.Edited = editQuery(cr, sd.Query), 1, true
+			}
+			cases = append(cases, c)
+		}
+	} else if o.Replay != "" {
 		var c Case
 		if vh.ReadReplayCase(o.Replay, &c) {
 			c.Origin = "replay"
@@ -293,7 +360,7 @@ func main() {
 			run.Fail(idx, f.Sig, f.Detail, c)
 		}
 		ex, _ := res.Obs["executed"].(bool)
-		run.Count(fmt.Sprint(c.Seed, c.Query), ex)
+		run.Count(fmt.Sprint(c.Seed, c.QSeed, c.Query), ex)
 		if _, bad := res.Obs["builder_error"]; bad {
 			run.Hist("builder:rejected")
 			continue
@@ -324,6 +391,10 @@ func main() {
 			}
 		}
 		terms = append(terms, fmt.Sprintf("(%d, mk14 %s %s %s)", idx, sch, isch, vh.CoqList(qs)))
+	}
+	if o.Search != "" {
+		run.Finish()
+		return
 	}
 	const shard = 40
 	for s := 0; s < len(terms); s += shard {
